@@ -157,8 +157,30 @@ class SetGen(object):
         self.count('names_reused_across_modules')
         return name
 
+    # identifiers that look like keywords of SMI / SPPI / ASN.1 but are none for this parser, in every dialect
+    KEYWORDISH_UPPER = ['Integer64', 'Unsigned64', 'Float', 'Boolean', 'Real', 'String', 'Null', 'Set', 'Enumerated',
+                        'Unsigned', 'Integer', 'Octet', 'Bit', 'Object', 'Identity', 'Status', 'Access', 'Syntax',
+                        'Macro', 'Begin', 'End', 'Of', 'From', 'Type', 'Value', 'Size', 'Implied', 'Index', 'Units',
+                        'Module', 'Group', 'Objects', 'Max', 'Min', 'True', 'False', 'Utf8String', 'Integer8',
+                        'Unsigned16', 'Float64', 'Pib', 'Instance', 'Extends', 'Install', 'Name', 'Category']
+    KEYWORDISH_LOWER = ['integer64', 'max', 'min', 'true', 'false', 'size', 'index', 'units', 'status', 'access',
+                        'syntax', 'type', 'value', 'object', 'identity', 'group', 'module', 'begin', 'end', 'from',
+                        'of', 'implied', 'current', 'deprecated', 'obsolete', 'mandatory', 'optional', 'any']
+
+    def _keywordish(self, mod, upper):
+        if 'keywordish' not in self.f or self.rng.random() >= 0.04:
+            return None
+        name = self.rng.choice(self.KEYWORDISH_UPPER if upper else self.KEYWORDISH_LOWER)
+        used = getattr(self, '_kw_used', set())
+        if name.lower() in used or name.lower() in mod.taken:
+            return None
+        used.add(name.lower())
+        self._kw_used = used
+        self.stats['keywordish_names'] = self.stats.get('keywordish_names', 0) + 1
+        return name
+
     def lname(self, mod, suffix=''):
-        name = self._reuse(mod, False) if not suffix else None
+        name = (self._keywordish(mod, False) or self._reuse(mod, False)) if not suffix else None
         for _ in range(50):
             if name is None:
                 name = self.namer.lower(mod.prefix) + suffix
@@ -170,7 +192,7 @@ class SetGen(object):
         return name
 
     def uname(self, mod, suffix=''):
-        name = self._reuse(mod, True) if not suffix else None
+        name = (self._keywordish(mod, True) or self._reuse(mod, True)) if not suffix else None
         for _ in range(50):
             if name is None:
                 name = self.namer.upper(mod.tprefix) + suffix
